@@ -429,8 +429,18 @@ func TestC05(t *testing.T) {
 		hintCounts[g.name] = res.NHints
 	}
 	r.Extra("gadget_hint_calls", fmt.Sprint(hintCounts))
+	// a gadget that requests no prover-supplied value (possible after a rewrite) offers nothing to substitute
+	var withHints, withHints5 []c05Gadget
+	for i, g := range c05Gadgets {
+		if hintCounts[g.name] > 0 {
+			withHints = append(withHints, g)
+			if i < 5 {
+				withHints5 = append(withHints5, g)
+			}
+		}
+	}
 	rapidCheck(t, "gadgets", tierN(14000, 150000), func(rt *rapid.T) {
-		g := rapid.SampledFrom(c05Gadgets).Draw(rt, "gadget")
+		g := rapid.SampledFrom(withHints).Draw(rt, "gadget")
 		in := g.gen(rt)
 		idx := rapid.IntRange(0, hintCounts[g.name]-1).Draw(rt, "hint")
 		// kind of that call is data independent: look it up on a traced run (cached per gadget)
@@ -459,7 +469,7 @@ func TestC05(t *testing.T) {
 	if rec.ShardIdx() < 4 || rec.Thorough() {
 		rec.SetRapid("compiled", tierN(60, 1500))
 		rapid.Check(t, func(rt *rapid.T) {
-			g := rapid.SampledFrom(c05Gadgets[:5]).Draw(rt, "gadget")
+			g := rapid.SampledFrom(withHints5).Draw(rt, "gadget")
 			back := rapid.SampledFrom([]string{"r1cs", "scs"}).Draw(rt, "backend")
 			in := g.gen(rt)
 			idx := 0 // the gadget's own hint is its first hint call
